@@ -413,6 +413,17 @@ type e2eName struct {
 	// which argument takes the size pad (-1 none) and whether the padded leaf is binary
 	padArg int
 	padBin bool
+	// the handler declares one more (string) parameter than the emitter sends: with connection
+	// state recovery on, server -> client, it receives the offset the server appends
+	extra bool
+}
+
+// parameter kinds of the handler registered for the name
+func (n *e2eName) handlerKinds() []string {
+	if n.extra {
+		return append(append([]string{}, n.Kinds...), "str")
+	}
+	return n.Kinds
 }
 
 func e2eNameTable() []e2eName {
@@ -433,6 +444,7 @@ func e2eNameTable() []e2eName {
 		/*13*/ {Name: "42[\"plain\",{}]", Kinds: []string{"meta", "str", "int"}, padArg: 1},
 		/*14*/ {Name: "trail\\", Kinds: []string{"meta", "int"}, padArg: -1}, // C09: name ending in a backslash
 		/*15*/ {Name: "", Kinds: []string{"meta", "int"}, padArg: -1}, // empty event name
+		/*16*/ {Name: "offset-probe", Kinds: []string{"meta", "int"}, padArg: -1, extra: true},
 	}
 }
 
@@ -440,7 +452,8 @@ func e2eNameTable() []e2eName {
 const e2eTwice = 0
 
 func (n *e2eName) trailingStr() bool {
-	return len(n.Kinds) > 0 && e2eKinds[n.Kinds[len(n.Kinds)-1]].isStr
+	hk := n.handlerKinds()
+	return len(hk) > 0 && e2eKinds[hk[len(hk)-1]].isStr
 }
 
 // builds the arguments of one event; deterministic in (seed, c, e, s) so that it can be built
@@ -517,7 +530,9 @@ type e2eRow struct {
 	Names     []e2eName `json:"names"`
 	Trailing  []bool    `json:"trailing"` // per name index: last handler parameter is a string
 	Arity     []int     `json:"arity"`
-	Twice     int       `json:"twice"` // name index registered twice (second registration records 100+index)
+	Twice     int       `json:"twice"`      // name index registered twice (second registration records 100+index)
+	ProbeSet  int64     `json:"probe_set"`  // offset-probe handler saw a non-empty extra parameter
+	ProbeZero int64     `json:"probe_zero"` // ... saw the zero value
 	Emitted   []e2eEv   `json:"emitted"`
 	Delivered []e2eDel  `json:"delivered"`
 	Errors    []string  `json:"errors"`
@@ -556,6 +571,8 @@ type e2eRecorder struct {
 	delivered []e2eDel
 	errors    map[string]int
 	count     atomic.Int64
+	probeSet  atomic.Int64 // offset-probe handler invocations whose extra parameter was non-empty
+	probeZero atomic.Int64 // ... was the zero value
 	disc      atomic.Int64
 	lastMove  atomic.Int64
 }
@@ -572,12 +589,21 @@ func (rec *e2eRecorder) err(side string, err any) {
 
 // handler of name index ni on connection c: records the digest of what it was handed
 func (rec *e2eRecorder) handler(c, ni int, n *e2eName) any {
-	in := make([]reflect.Type, len(n.Kinds))
-	for i, k := range n.Kinds {
+	hk := n.handlerKinds()
+	in := make([]reflect.Type, len(hk))
+	for i, k := range hk {
 		in[i] = e2eKinds[k].typ
 	}
 	ft := reflect.FuncOf(in, nil, false)
 	return reflect.MakeFunc(ft, func(args []reflect.Value) []reflect.Value {
+		if n.extra {
+			if args[len(args)-1].String() != "" {
+				rec.probeSet.Add(1)
+			} else {
+				rec.probeZero.Add(1)
+			}
+			args = args[:len(args)-1]
+		}
 		trees := make([]*e2eTree, len(args))
 		for i, a := range args {
 			trees[i] = e2eFromReflect(a)
@@ -617,7 +643,7 @@ func e2eRunScenario(scn e2eScn, lim e2eLimits) (row e2eRow) {
 	row.Names = table
 	for i := range table {
 		row.Trailing = append(row.Trailing, table[i].trailingStr())
-		row.Arity = append(row.Arity, len(table[i].Kinds))
+		row.Arity = append(row.Arity, len(table[i].handlerKinds()))
 	}
 	row.Twice = e2eTwice
 	row.Emitted, row.Delivered, row.Errors, row.EmitPanic = []e2eEv{}, []e2eDel{}, []string{}, []string{}
@@ -690,8 +716,9 @@ func e2eRunScenario(scn e2eScn, lim e2eLimits) (row e2eRow) {
 			for _, ni := range scn.Names {
 				ni := ni
 				n := &table[ni]
-				in := make([]reflect.Type, len(n.Kinds))
-				for i, k := range n.Kinds {
+				hk := n.handlerKinds()
+				in := make([]reflect.Type, len(hk))
+				for i, k := range hk {
 					in[i] = e2eKinds[k].typ
 				}
 				mk := func(reg int) any {
@@ -861,15 +888,22 @@ func e2eRunScenario(scn e2eScn, lim e2eLimits) (row e2eRow) {
 	var wg sync.WaitGroup
 	var pmu sync.Mutex
 	start := make(chan struct{})
+	var ready sync.WaitGroup
+	ready.Add(scn.Clients * scn.Emitters)
 	for c := 0; c < scn.Clients; c++ {
 		for e := 0; e < scn.Emitters; e++ {
 			wg.Add(1)
 			go func(c, e int) {
 				defer wg.Done()
+				built := make([][]any, len(plans[c][e]))
+				for i, p := range plans[c][e] {
+					built[i], _ = e2eBuild(&table[p.ev.N], scn.Seed, c, e, p.ev.S, p.pad)
+				}
+				ready.Done()
 				<-start
-				for _, p := range plans[c][e] {
+				for i, p := range plans[c][e] {
 					n := &table[p.ev.N]
-					vals, _ := e2eBuild(n, scn.Seed, c, e, p.ev.S, p.pad)
+					vals := built[i]
 					func() {
 						defer func() {
 							if x := recover(); x != nil {
@@ -888,6 +922,7 @@ func e2eRunScenario(scn e2eScn, lim e2eLimits) (row e2eRow) {
 			}(c, e)
 		}
 	}
+	ready.Wait() // all values built: the emit loops below run back to back
 	close(start)
 	wg.Wait()
 	rec.lastMove.Store(time.Now().UnixNano())
@@ -922,6 +957,7 @@ func e2eRunScenario(scn e2eScn, lim e2eLimits) (row e2eRow) {
 	rec.mu.Unlock()
 	sort.Strings(row.Errors)
 	row.Disc = int(rec.disc.Load())
+	row.ProbeSet, row.ProbeZero = rec.probeSet.Load(), rec.probeZero.Load()
 	return
 }
 
@@ -931,7 +967,7 @@ func e2eMatrix(seed uint64, tier string) []e2eScn {
 	r := vk.NewRand(seed)
 	var scns []e2eScn
 	id := 0
-	okNames := []int{0, 1, 2, 3, 4, 5, 6, 7, 8, 9, 10, 11, 12, 13}
+	okNames := []int{0, 1, 2, 3, 4, 5, 6, 7, 8, 9, 10, 11, 12, 13, 16}
 	pick := func(k int, must ...int) []int {
 		set := map[int]bool{}
 		for _, m := range must {
@@ -965,7 +1001,7 @@ func e2eMatrix(seed uint64, tier string) []e2eScn {
 							Clients: 1 + r.Intn(3), Emitters: 1 + r.Intn(8), Per: per, Size: size, Seed: r.U64()}
 						if k == 0 {
 							// always: two names with the same signature, a trailing-string one, binary ones
-							s.Names = pick(7, 0, 11, 6, 8)
+							s.Names = pick(8, 0, 11, 6, 8, 16)
 						} else {
 							s.Names = pick(5+r.Intn(6), 5)
 						}
@@ -983,6 +1019,15 @@ func e2eMatrix(seed uint64, tier string) []e2eScn {
 					}
 				}
 			}
+		}
+	}
+	// contention: 8 emitters in tight loops, mostly multi-attachment events, so that a send path
+	// that does not enqueue a packet's frames atomically mixes them up
+	for _, tr := range []string{"websocket", "polling"} {
+		for _, dir := range []string{"s2c", "c2s"} {
+			scns = append(scns, e2eScn{ID: id, Transport: tr, Recovery: dir == "s2c" && tr == "polling", Dir: dir,
+				Clients: 1, Emitters: 8, Per: 10 * per, Size: "tiny", Names: []int{8, 9, 12}, Seed: r.U64()})
+			id++
 		}
 	}
 	// the special names: trailing backslash (C09) and the empty name, both directions
